@@ -15,7 +15,7 @@ GInit == Init /\ hist = <<>> /\ ffrom \in FaultFrom
 \* rows and links: the SET of allowed contents / link set ids (0 = blank / no link) per row 1..24 and link 1..6
 RowList(f) == [k \in 1..24 |-> IF k \in DOMAIN f THEN f[k] ELSE {0}]
 Ver(v) == [pg |-> v.pg, sub |-> v.sub, nat |-> v.nat, rows |-> RowList(v.rows), links |-> v.links,
-           e |-> v.enh.e, n |-> v.enh.n, shown |-> Shown(v), must |-> MustShow(v)]
+           e |-> v.enh.e, n |-> v.enh.n, shown |-> Shown(v), must |-> MustShow(v), hbad |-> v.hbad]
 TermOut == [i \in 1..Len(term') |-> Ver(term'[i])]
 GNext == /\ npk < MaxPk /\ Next /\ (lastAct'.flt # Ok => npk >= ffrom)
          /\ hist' = Append(hist, [act |-> lastAct', term |-> TermOut]) /\ UNCHANGED ffrom
